@@ -80,7 +80,7 @@ package websocket
 //@   loop 1
 //@     invariant forall q int :: q <= old(top) ==> box(q, "[]byte") == old(box(q, "[]byte"))
 //@     invariant forall b int :: b <= old(top) ==> bytes_row(b) == old(bytes_row(b))
-//@     invariant pbuf != nil && liveP[pbuf] && fresh(pbuf) && len(*pbuf) <= cap(*pbuf) && WsWired(c)
+//@     invariant pbuf != nil && liveP[pbuf] && fresh(pbuf) && fresh(*pbuf) && len(*pbuf) <= cap(*pbuf) && WsWired(c)
 //@     invariant c.commonFields.MessageLengthLimit > 0 ==> len(*pbuf) <= c.commonFields.MessageLengthLimit
 //@     invariant forall q int :: q <= old(top) ==> liveP[q] == old(liveP[q])
 
